@@ -18,6 +18,7 @@ func factsExtra(ctx *Ctx, b *strings.Builder) {
 	lockFacts(ctx, b)
 	poolMutexSpans(ctx, b)
 	claimFacts(ctx, b)
+	decodeFacts(ctx, b)
 	serverFacts(ctx, b)
 	factsMore(ctx, b)
 }
